@@ -139,6 +139,7 @@ type checkResult struct {
 	toolErrs   []string
 	bounded    []boundedResult
 	witnessCache map[string]map[string]interface{}
+	boundedFindings []boundedFinding
 }
 
 func classSelected(classes []string, c string) bool {
@@ -274,8 +275,51 @@ func runCheck(e *Engine, id, tier string, dir string) (*checkResult, error) {
 	if err := e.Discharge(res.obls, SolveOpts{TimeoutS: timeout, All: all, Dir: dir, Workers: 5}); err != nil {
 		return nil, err
 	}
+	// bounded stand-ins (thorough tier): real functions against the independent reference implementations
+	if tier == "thorough" {
+		seed, _ := strconv.Atoi(envOr("VERIF_SEED", "0"))
+		for _, b := range ps.Bounded {
+			i := strings.Index(b, ":")
+			if i < 0 {
+				continue
+			}
+			pkg := b[:i]
+			var checks []string
+			for _, c := range strings.Split(b[i+1:], ",") {
+				checks = append(checks, strings.TrimSpace(c))
+			}
+			resp, err := runHarness(pkg, harnessReq{Checks: checks, Seed: int64(seed), Budget: "thorough"}, 3*time.Hour)
+			br := boundedResult{name: b, bound: "harness " + pkg + " budget=thorough (sizes and families listed in /verif/harness/" + pkg + "/verif_harness_test.go)"}
+			if err != nil {
+				br.failed = 1
+				br.detail = err.Error()
+				res.toolErrs = append(res.toolErrs, "bounded stand-in "+b+": "+err.Error())
+			} else {
+				for _, n := range resp.Cases {
+					br.cases += n
+				}
+				for _, m := range resp.MaxErr {
+					if m > br.maxErr {
+						br.maxErr = m
+					}
+				}
+				br.failed = len(resp.Findings)
+				if len(resp.Findings) > 0 {
+					f := resp.Findings[0]
+					br.detail = fmt.Sprintf("%s: input %v observed %s expected %s", f.Check, f.Input, f.Observed, f.Expected)
+					res.boundedFindings = append(res.boundedFindings, boundedFinding{pkg: pkg, f: f})
+				}
+			}
+			res.bounded = append(res.bounded, br)
+		}
+	}
 	res.wall = time.Since(t0).Seconds()
 	return res, nil
+}
+
+type boundedFinding struct {
+	pkg string
+	f   harnessFinding
 }
 
 type evidence struct {
@@ -425,13 +469,22 @@ func report(e *Engine, res *checkResult, tier string, seed int, verbose bool) in
 		}
 		exit = 3
 	}
-	// bounded stand-ins (thorough tier)
+	// bounded stand-ins (thorough tier): a concrete counterexample on the real code is a violation
 	var boundedOut []map[string]interface{}
 	for _, b := range res.bounded {
 		boundedOut = append(boundedOut, b.json())
-		if b.failed > 0 {
-			exit = 1
-		}
+	}
+	for i, bf := range res.boundedFindings {
+		p := filepath.Join(homeDir(), "replays", fmt.Sprintf("%s-bounded-%s-%d.json", id, bf.f.Check, i))
+		os.MkdirAll(filepath.Dir(p), 0o755)
+		rec := map[string]interface{}{"property": id, "obligation": "bounded/" + bf.pkg + ":" + bf.f.Check, "status": "failed",
+			"replay": map[string]interface{}{"found": true, "package": bf.pkg, "check": bf.f.Check, "input": bf.f.Input, "observed": bf.f.Observed, "expected": bf.f.Expected, "verdict": "property violated on the real code (bounded stand-in)"},
+			"rerun": "bin/vc replay " + p}
+		bb, _ := json.MarshalIndent(rec, "", " ")
+		os.WriteFile(p, bb, 0o644)
+		fmt.Printf("VIOLATION property=%s replay=%s\n", id, p)
+		nviol++
+		exit = 1
 	}
 	// evidence
 	var trusted []string
